@@ -54,7 +54,8 @@ class SerialVsWorkers(Bounded):
              "with injected per-task delays (earlier items finish later), bitwise comparison of classes, dtypes and parameter bytes, and a "
              "repeated serial run; 3 (quick) / 10 (thorough) inputs per scenario: 2-d/3-d fields with 3-6 droplets of different "
              "intensities, shared explicit least_squares_params with fitted intensity levels, diffuse / perturbed candidates with a minimal "
-             "radius, storages with duplicate and non-monotonic time stamps and empty frames")
+             "radius, a candidate whose fit raises (not-a-number cell) and an empty candidate list (same outcome for every worker count), "
+             "storages with duplicate and non-monotonic time stamps and empty frames")
 
     def run(self, tier, seed):
         import copy
@@ -125,6 +126,22 @@ class SerialVsWorkers(Bounded):
                         if got != ref:
                             report(f"refine_droplets:workers", f"refine_droplets: serial and worker-pool results differ (classes / bytes / order)",
                                    dict(t=t, kind=kind, workers=w, seed=seed, options=str(opts), serial=str(ref)[:300], parallel=str(got)[:300]))
+                # -- scenario A': a candidate whose fit cannot be carried out (a not-a-number cell in its fit region), and no candidates at all: the
+                # OUTCOME (which exception class, or which result) must not depend on the worker count either
+                fbad = f.copy()
+                if cands:
+                    cell = tuple(int(x) for x in fbad.grid.transform(cands[0].position, "cartesian", "cell"))
+                    fbad.data[tuple(min(max(c, 0), n - 1) for c, n in zip(cell, fbad.grid.shape))] = np.nan
+                for lab, ff, mk2 in (("nan-cell", fbad, lambda: [c.copy() for c in cands]), ("no-candidates", f, lambda: [])):
+                    outs = {}
+                    for w in [1] + workers:
+                        ev += 1
+                        distinct.add(("A'", t, lab, w))
+                        o = attempt(lambda: _sig(ia.refine_droplets(ff, mk2(), num_processes=w)))
+                        outs[w] = o[:2] if o[:1] == ("raised",) else o
+                    if len({repr(v) for v in outs.values()}) != 1:
+                        report("refine_droplets:outcome", "refine_droplets: the outcome (result / exception class) depends on the number of worker processes",
+                               dict(t=t, scenario=lab, seed=seed, outcomes={str(k_): str(v)[:120] for k_, v in outs.items()}))
                 # -- scenario B: locate_droplets(refine=True) end to end
                 lopts = [dict(interface_width=1.0, minimal_radius=2.2), dict(modes=2 if grid.dim == 2 else 1, minimal_radius=1.0),
                          dict(minimal_radius=0.5, refine_args=dict(vmin=None, vmax=None))][t % 3]
